@@ -11,10 +11,14 @@ from pflow import pflow
 from core import Obligation
 
 # (function, parameter, required kind, forbidden kind, why, properties)
+_WHY6979 = "RFC 6979 3.2d keys the DRBG with the message reduced mod n (bits2octets); raw bytes differ for messages >= n"
+# decided at the two entry points that hand a caller's message to the generator (interprocedural summaries): the public
+# nonce function, which anti-exfil's signer_commit and every caller of secp256k1_nonce_function_default reach, and the
+# signing loop; the shared helper is examined too while it still has the parameter (where the reduction happens is free)
 SANITISE = [
-    ("nonce_function_rfc6979_impl", "msg32", "rfc6979_key:scalar-decoded", "rfc6979_key:raw",
-     "RFC 6979 3.2d keys the DRBG with the message reduced mod n (bits2octets); raw bytes differ for messages >= n",
-     {"C01", "C05", "C15"}),
+    ("nonce_function_rfc6979", "msg32", "rfc6979_key:scalar-decoded", "rfc6979_key:raw", _WHY6979, {"C01", "C05", "C15"}, False),
+    ("secp256k1_ecdsa_sign_inner", "msg32", "rfc6979_key:scalar-decoded", "rfc6979_key:raw", _WHY6979, {"C01", "C05", "C15"}, False),
+    ("nonce_function_rfc6979_impl", "msg32", "rfc6979_key:scalar-decoded", "rfc6979_key:raw", _WHY6979, {"C01", "C05", "C15"}, True),
 ]
 
 # length identity: (function, pointer param, length param, absorbing callee, ptr arg idx, len arg idx, properties)
@@ -59,8 +63,10 @@ def _assigned_anywhere(fn, var):
 def obligations(prog):
     obs = []
     pf = pflow(prog)
-    for (fname, p, need, forbid, why, props) in SANITISE:
-        f = prog.fn(fname)
+    for (fname, p, need, forbid, why, props, optional) in SANITISE:
+        f = prog.functions.get(fname) if optional else prog.fn(fname)
+        if optional and (f is None or p not in f.param_index):
+            continue
         if p not in f.param_index:
             raise AnalysisBroken("R-FLOW: parameter %s of %s vanished" % (p, fname))
         kinds = {k for (o, k, l) in pf.summary(fname).get(f.param_index[p], ())}
